@@ -14,7 +14,7 @@ from vf.common import MachineryError
 
 PROP = "C09"
 LOG = []
-SHARED_LIST = ['x']   # a mutable value reachable from the record (r.fl and r.c.fl)
+SHARED_LIST = ['X']   # a mutable value reachable from the record (r.fl and r.c.fl)
 
 
 def _by_helper():
@@ -55,14 +55,21 @@ class Canary(str):
 
     @property
     def ipaddress(self):
-        return Canary("ip")
+        return CallableCanary("ip")
+
+
+class CallableCanary(Canary):
+    """what a record value may offer under the name of a whitelisted constructor: calling it is logged"""
+
+    def __call__(self, *a, **k):
+        LOG.append("call"); return "C"
 
 
 HELPERS = ["lower", "upper"]
 NAMES = ["r", "net", "f", "string"] + HELPERS + ["len", "open"]
-GENFLAGS = ["none", "f", "string", "f_op"]
+GENFLAGS = ["none", "f", "string", "f_op", "net_val"]
 ATTRS = ["strip", "upper", "__class__", "__x", "s", "ipaddress", "fl"]
-CONTEXTS = ["bare", "arg", "operand", "listelt", "genelt", "geniter", "gencond", "kwarg", "not", "boolop", "add_list", "mult", "bitor"]
+CONTEXTS = ["bare", "arg", "operand", "listelt", "genelt", "geniter", "gencond", "kwarg", "not", "boolop", "add_list", "mult", "bitor", "helper_strings", "helper_fields"]
 
 
 def targets():
@@ -96,9 +103,12 @@ def render(t, g, ctx):
         "genelt": f"any({X} == 1 for y in [1])", "geniter": f"any(y == 1 for y in [{X}])", "gencond": f"any(y == 1 for y in [1] if {X})",
         "kwarg": f"field_contains(r, ['c'], ['x'], nocase={X})", "not": f"not {X}", "boolop": f"True and {X}",
         "add_list": f"({X} + ['y']) == 1", "mult": f"({X} * 2) == 1", "bitor": f"({X} | 1) == 1",
+        "helper_strings": f"field_equals(r, ['c'], {X})", "helper_fields": f"field_contains(r, {X}, ['zz'])",
     }[ctx]
     if g == "f_op":
         e = f"1 in ({e} for f in [r.c.strip])"
+    elif g == "net_val":
+        e = f"any({e} for net in [r.c])"       # the variable shadows the ROOT of dotted constructors and is bound to a record value
     elif g != "none":
         e = f"any({e} for {g} in [r.c.strip])"
     return e
@@ -111,7 +121,7 @@ def run_shape(src, D):
     rec = D.recordType.__new__(D.recordType)
     can = Canary("canary")
     del SHARED_LIST[:]
-    SHARED_LIST.append("x")
+    SHARED_LIST.append("X")
     fl = SHARED_LIST
     object.__setattr__(rec, "c", can)
     object.__setattr__(rec, "fl", fl)
@@ -124,7 +134,7 @@ def run_shape(src, D):
         if isinstance(e, (KeyboardInterrupt, SystemExit)):
             raise
         refused, exc = True, type(e).__name__
-    changed = not (rec.c is can and rec.fl is fl and fl == ["x"] and rec._source is None and str.__eq__(can, "canary"))
+    changed = not (rec.c is can and rec.fl is fl and fl == ["X"] and rec._source is None and str.__eq__(can, "canary"))
     return {"refused": refused, "exc": exc, "invoked": list(LOG), "changed": changed}
 
 
